@@ -120,5 +120,46 @@ Example C44_starvation_needs_small_batch :
   garbage_free (sh_meta (gc_iter 2 4 (srun 2 st_hist))) = true.
 Proof. vm_compute. reflexivity. Qed.
 
+(* ---- scenario class "expired split objects" (engine/inhume.go processExpiredObjects -> processAddrDelete ->
+   collectChildrenWithoutLink; model GC/SplitCheck.v, proofs GC/SplitProofs.v).  For both split versions, every
+   chain (first ID f, any number of later objects: middle parts, last part, link) and EVERY stored set st
+   (any subset of the chain, on whatever shards, mixed with objects of other chains): every stored object of
+   the chain -- the first part included, although it carries no split.first attribute -- is in the list of IDs
+   the engine hands to Shard.Delete, and none of them is among the survivors.  The second theorem is the other
+   direction (controls stay): only the first ID and stored objects bound to this chain are collected.
+   Tied on every run through the harness observable survivors = stored - collected (`gc split`).
+   Not covered by these two statements (tie-only): that IterateExpired yields the expired parent, that
+   metabase Exists assembles the split info with the first / split ID, that Shard.Delete removes what it is given. *)
+From NV Require GC.SplitCheck GC.SplitProofs.
+
+Theorem C44_split_collect_all : forall v f rest st,
+  (forall p, In p st -> In p (SplitCheck.chain_of v f rest) ->
+             In (SplitCheck.sp_id p) (SplitCheck.collect_children None (SplitCheck.sinfo_of v f) st)) /\
+  (forall p, In p (SplitCheck.split_survivors st (SplitCheck.collect_children None (SplitCheck.sinfo_of v f) st)) ->
+             ~ In p (SplitCheck.chain_of v f rest)).
+Proof. exact SplitProofs.split_collect_all. Qed.
+
+Theorem C44_split_collect_only : forall v f st x,
+  In x (SplitCheck.collect_children None (SplitCheck.sinfo_of v f) st) ->
+  x = f \/ exists p, In p st /\ SplitCheck.sp_id p = x /\ SplitProofs.member (SplitCheck.sinfo_of v f) p = true.
+Proof. exact SplitProofs.split_collect_only. Qed.
+
+(* non-vacuity: V2 chain 21 <- 22 <- 23 (+ link 24) without its middle part, next to a complete chain of another
+   object (41, 42): the lookup collects 23, 24 and the first part 21; the other chain survives untouched.
+   V1 chain with split ID 7: all three parts collected. *)
+Example C44_split_nonvacuous :
+  let st := [SplitCheck.v2_first 21; SplitCheck.v2_later 21 23; SplitCheck.v2_later 21 24;
+             SplitCheck.v2_first 41; SplitCheck.v2_later 41 42] in
+  let coll := SplitCheck.collect_children None (SplitCheck.sinfo_of SplitCheck.SV2 21) st in
+  coll = [23; 24; 21] /\
+  SplitCheck.split_survivors st coll = [SplitCheck.v2_first 41; SplitCheck.v2_later 41 42] /\
+  In (SplitCheck.v2_first 21) (SplitCheck.chain_of SplitCheck.SV2 21 [22; 23; 24]) /\
+  SplitCheck.collect_children None (SplitCheck.sinfo_of (SplitCheck.SV1 7) 1)
+     [SplitCheck.v1_part 7 1; SplitCheck.v1_part 7 2; SplitCheck.v1_part 8 5; SplitCheck.v1_part 7 3] = [1; 2; 3].
+Proof. vm_compute. repeat split; try reflexivity. left. reflexivity. Qed.
+
+
 Print Assumptions C44_eventually_partial.
 Print Assumptions C44_eventually_refuted_nonphy_parent.
+Print Assumptions C44_split_collect_all.
+Print Assumptions C44_split_collect_only.
